@@ -51,6 +51,41 @@ class Sym:
         return "<%s>" % self.name
 
 
+class Term:
+    """numeric expression over atoms (kind 'num' / 'int' Syms and constants): op + operands, structurally compared;
+    + and * are commutative"""
+
+    def __init__(self, op, args):
+        self.op, self.args = op, tuple(args)
+
+    def key(self):
+        ks = [term_key(a) for a in self.args]
+        if self.op in ("+", "*"):
+            ks = sorted(ks, key=repr)
+        return (self.op,) + tuple(ks)
+
+    def __repr__(self):
+        if len(self.args) == 2 and not self.op.isalnum():
+            return "(%r %s %r)" % (self.args[0], self.op, self.args[1])
+        return "%s(%s)" % (self.op, ", ".join(repr(a) for a in self.args))
+
+
+def term_key(v):
+    if isinstance(v, Term):
+        return v.key()
+    if isinstance(v, Sym):
+        return ("sym", v.name)
+    if isinstance(v, NoneT):
+        return ("none",)
+    if isinstance(v, (bool, int, float)):
+        return ("const", float(v)) if not isinstance(v, bool) else ("bool", v)
+    return ("other", id(v))
+
+
+def is_numeric(v):
+    return isinstance(v, Term) or (isinstance(v, Sym) and v.kind in ("num", "int")) or (isinstance(v, (int, float)) and not isinstance(v, bool))
+
+
 class NoneT:
     def __repr__(self):
         return "None"
@@ -179,6 +214,8 @@ def same(a, b):
         return a.key() == b.key()
     if isinstance(a, Sym) and isinstance(b, Sym):
         return a is b
+    if isinstance(a, Term) or isinstance(b, Term):
+        return term_key(a) == term_key(b)
     if isinstance(a, ListV) and isinstance(b, ListV):
         return type(a) is type(b) and len(a.items) == len(b.items) and all(same(x, y) for x, y in zip(a.items, b.items))
     if isinstance(a, EnumMember) and isinstance(b, EnumMember):
@@ -610,7 +647,7 @@ class PatternV:
         self.pattern = pattern
 
 
-BUILTINS = {"map", "filter", "str", "int", "len", "isinstance", "bool", "list", "tuple", "enumerate", "zip", "all", "any", "float", "repr", "type", "dict", "set", "range", "sorted", "min", "max"}
+BUILTINS = {"round", "abs", "super", "map", "filter", "str", "int", "len", "isinstance", "bool", "list", "tuple", "enumerate", "zip", "all", "any", "float", "repr", "type", "dict", "set", "range", "sorted", "min", "max"}
 
 
 def decorators(fn):
@@ -624,6 +661,8 @@ class Ev:
         self.repo = repo
         self.opaque_calls = set(opaque_calls)  # "Class.method" evaluated to Ctor(name, args) without looking inside
         self.stubs = {}  # "Class.method" -> callable(bound arguments) giving the abstract result
+        self.oracle = None  # callable(kind, a, b) -> True / False / None: decides tests on atoms for the shape case
+        self.pure_calls = set()  # dotted names of outside functions treated as uninterpreted pure functions (Term)
         self.trace = []  # (what, node) notes: pattern methods used, skipped asserts
         self.depth = 0
 
@@ -646,6 +685,10 @@ class Ev:
             return bool(v.d)
         if isinstance(v, Sym) and v.kind == "int" and v.positive:
             return True
+        if self.oracle is not None and (isinstance(v, (Sym, Term))):
+            r = self.oracle("truth", v, None)
+            if r is not None:
+                return r
         if isinstance(v, (Obj, MatchV, EnumMember, Ctor, ClassRef, FuncV, PatternV)):
             return True
         raise Undecided("truth of %r is not decidable%s" % (v, " at line %s" % node.lineno if node is not None else ""))
@@ -668,6 +711,10 @@ class Ev:
         return False
 
     def compare(self, op, a, b, node):
+        if self.oracle is not None and not isinstance(op, (ast.Is, ast.IsNot, ast.In, ast.NotIn)) and (isinstance(a, (Sym, Term)) or isinstance(b, (Sym, Term))):
+            r = self.oracle(type(op).__name__, a, b)
+            if r is not None:
+                return r
         if isinstance(op, (ast.Is, ast.IsNot)):
             if isinstance(a, NoneT) or isinstance(b, NoneT):
                 r = a is b
@@ -937,7 +984,13 @@ class Ev:
             o = self.ev(target.value, env, mod)
             if not isinstance(o, Obj):
                 raise AnalysisError("attribute store on %r at line %d" % (o, target.lineno))
+            if o.cls is not None:
+                owner, p = self.repo.find_prop(o.cls, target.attr)
+                if p and p.get("set") is not None:
+                    self.call_fn(FuncV(p["set"], self_val=o, cls=owner, mod=owner.mod), [v], {}, target)
+                    return
             o.fields[target.attr] = v
+            self.trace.append(("store", target, (o, target.attr, v)))
         elif isinstance(target, ast.Subscript):
             o = self.ev(target.value, env, mod)
             k = self.ev(target.slice, env, mod)
@@ -1034,6 +1087,11 @@ class Ev:
             return a
         if isinstance(b, Frag):
             return b
+        if is_numeric(a) and is_numeric(b) and (isinstance(a, (Sym, Term)) or isinstance(b, (Sym, Term))):
+            sym = {ast.Add: "+", ast.Sub: "-", ast.Mult: "*", ast.Div: "/", ast.FloorDiv: "//", ast.Mod: "%", ast.Pow: "**"}.get(type(op))
+            if sym is None:
+                raise AnalysisError("numeric operation %s at line %d" % (type(op).__name__, node.lineno))
+            return Term(sym, [a, b])
         if isinstance(op, ast.Add):
             if isinstance(a, Str) and isinstance(b, Str):
                 return a + b
@@ -1150,8 +1208,10 @@ class Ev:
             v = self.ev(e.operand, env, mod)
             if isinstance(e.op, ast.Not):
                 return not self.truth(v, e)
-            if isinstance(e.op, ast.USub) and isinstance(v, int):
+            if isinstance(e.op, ast.USub) and isinstance(v, (int, float)):
                 return -v
+            if isinstance(e.op, ast.USub) and is_numeric(v):
+                return Term("neg", [v])
             raise AnalysisError("unary operation at line %d" % e.lineno)
         if isinstance(e, ast.Compare):
             left = self.ev(e.left, env, mod)
@@ -1201,6 +1261,18 @@ class Ev:
             else:
                 kwargs[k.arg] = self.ev(k.value, env, mod)
         f = e.func
+        if isinstance(f, ast.Attribute) and isinstance(f.value, ast.Call) and isinstance(f.value.func, ast.Name) and f.value.func.id == "super" and not f.value.args:
+            cur, e2 = None, env
+            while e2 is not None and cur is None:
+                cur = e2.get("__cls__")
+                slf = e2.get("self", e2.get("cls"))
+                e2 = e2.get("__outer__")
+            if cur is None:
+                raise AnalysisError("super() outside a method at line %d" % e.lineno)
+            for c in self.repo.mro(cur)[1:]:
+                if f.attr in c.methods:
+                    return self.apply(self.bind(c.methods[f.attr], c, slf if isinstance(slf, Obj) else None, via_class=slf if isinstance(slf, ClassRef) else None), args, kwargs, e, mod)
+            raise AnalysisError("super().%s not found at line %d" % (f.attr, e.lineno))
         if isinstance(f, ast.Attribute):
             recv = self.ev(f.value, env, mod)
             target = self.getattr(recv, f.attr, f, mod)
@@ -1280,6 +1352,16 @@ class Ev:
             return all(ts) if name == "all" else any(ts)
         if name == "isinstance":
             return self.isinstance(args[0], args[1], e)
+        if name in ("round", "abs", "min", "max", "float") and args and any(isinstance(a, (Sym, Term)) for a in args):
+            if name == "float" and len(args) == 1:
+                return args[0]
+            return Term(name, args)
+        if name in ("round", "abs", "min", "max") and args and all(isinstance(a, (int, float)) for a in args):
+            return {"round": round, "abs": abs, "min": min, "max": max}[name](*args)
+        if name == "type" and len(args) == 1:
+            if isinstance(args[0], Obj) and args[0].cls is not None:
+                return ClassRef(args[0].cls)
+            raise AnalysisError("type(%r) at line %d" % (args[0], e.lineno))
         if name in ("map", "filter"):
             f = args[0]
             items = [list(t) for t in zip(*[self.iterate(a, e) for a in args[1:]])]
